@@ -11,7 +11,8 @@
    descriptor semantics = the type_new contract, exercised by the oracle, not proved. *)
 From Coq Require Import List String Bool.
 Import ListNotations.
-Require Import TL.Model.Slotted TL.Model.SlottedState TL.Proofs.SlottedLemmas TL.Proofs.SlottedStateLemmas.
+Require Import TL.Model.Slotted TL.Model.SlottedState TL.Model.SlottedInst.
+Require Import TL.Proofs.SlottedLemmas TL.Proofs.SlottedStateLemmas TL.Proofs.SlottedInstLemmas.
 
 (* ---- the full statement (data level), false of the faithful model: zero-arg super ---- *)
 Definition C19_full : Prop :=
@@ -263,6 +264,311 @@ Theorem C19_refuted_inherited_hooks : exists c n,
   assoc k_setstate (c_dict n) = Some OSetstateFix.
 Proof. exists ex_frozen_hooked. eexists. vm_compute. repeat split. Qed.
 
+(* ======================= instances ======================================================= *)
+(* From here on: instances of the classes of the class model (Model/SlottedInst.v).  C = the dataclass
+   c as given, S = n = the result of slotted(c); E says what the class model leaves open (the kind of
+   each object of c's dict, the dictionaries of the bases).  klass_of E c false / klass_of E n true are
+   the two classes as their instances see them.  Interpreter contract = the definitions of
+   lookup / ogetattr / obj_setattr (descriptor precedence), regnames / getstate_default / rebuild
+   (copyreg + object.__reduce_ex__, protocols 2-5), construct / dc_eq / dc_lt / dc_hash / dc_repr (the
+   code dataclasses generates) -- each tied to the interpreter by its own correspondence layer. *)
+
+(* ---- construction ----------------------------------------------------------------------- *)
+(* K(pos.., kw..) for every argument list, every default / default-factory environment D and every list
+   `post` of assignments made by __post_init__: both classes raise the same exception, or both succeed
+   and the two instances hold the same value under EVERY name; every field is set and reads alike. *)
+Theorem C19_construct : forall (E : cenv) fl (st st' : stack) c n d,
+  c19_guard c = true -> c_dc c = Some d -> wrap repaired fl st c = (st', Ok n) ->
+  forall D post pos kw, construct_guard E fl c d post = true ->
+  match construct (klass_of E c false) d D post pos kw, construct (klass_of E n true) d D post pos kw with
+  | SOk iC, SOk iS =>
+      sim iC iS /\ all_set iS (fnames d)
+      /\ inst_of (klass_of E c false) iC /\ inst_of (klass_of E n true) iS
+      /\ (forall f, In f (fnames d) -> exists v, ogetattr (view_of E c) iC f = GVal v /\ ogetattr (view_of E n) iS f = GVal v)
+  | SRaise e1, SRaise e2 => e1 = e2
+  | _, _ => False
+  end.
+Proof. exact st_construct. Qed.
+
+(* no per-instance __dict__ unless requested or inherited (no guard beyond c19_guard) *)
+Theorem C19_instance_dict : forall (E : cenv) fl (st st' : stack) c n d,
+  c19_guard c = true -> c_dc c = Some d -> wrap repaired fl st c = (st', Ok n) ->
+  forall D post pos kw iS, construct (klass_of E n true) d D post pos kw = SOk iS ->
+  (i_dict iS = None <-> fl_dict fl || layout_has k_dict (c_mro c) = false).
+Proof. exact construct_no_dict. Qed.
+
+(* ---- ==, <, hash, repr ------------------------------------------------------------------- *)
+(* whichever __eq__ / __lt__ / __hash__ / __repr__ the MRO provides (generated for this class or for a
+   base, absent, __hash__ = None), for every comparison of field values O: instances that hold the
+   same values give the same answers *)
+Theorem C19_methods : forall (E : cenv) fl (st st' : stack) c n d,
+  c19_guard c = true -> c_dc c = Some d -> wrap repaired fl st c = (st', Ok n) ->
+  forall (O : vops) iC iS jC jS, methods_guard E c d = true ->
+  sim iC iS -> sim jC jS -> all_set iS (fnames d) -> all_set jS (fnames d) ->
+  dc_eq O (klass_of E n true) iS jS = dc_eq O (klass_of E c false) iC jC
+  /\ dc_lt O (klass_of E n true) iS jS = dc_lt O (klass_of E c false) iC jC
+  /\ dc_hash (klass_of E n true) iS = dc_hash (klass_of E c false) iC
+  /\ dc_repr (klass_of E n true) iS = dc_repr (klass_of E c false) iC.
+Proof. exact methods_twin. Qed.
+
+(* frozen-ness: assigning to a field through the generated __setattr__ behaves alike *)
+Theorem C19_frozen_fields : forall (E : cenv) fl (st st' : stack) c n d,
+  c19_guard c = true -> c_dc c = Some d -> wrap repaired fl st c = (st', Ok n) ->
+  forall iC iS f v names, methods_guard E c d = true ->
+  lookup (view_of E c) k_setattr = Some (CGen names) -> In f names ->
+  py_setattr (klass_of E n true) iS f v = py_setattr (klass_of E c false) iC f v.
+Proof. exact setattr_field_twin. Qed.
+
+(* ---- copy.copy / copy.deepcopy / pickle.loads . pickle.dumps ------------------------------- *)
+(* default protocol (no user hook in the MRO), frozen or not: for every instance of S and every value
+   transport f (identity for copy.copy), the round trip succeeds, yields an instance of S, and every
+   name holds the transported value of the source: slot values and the instance __dict__ *)
+Theorem C19_roundtrip : forall (E : cenv) fl (st st' : stack) c n d,
+  c19_guard c = true -> c_dc c = Some d -> wrap repaired fl st c = (st', Ok n) ->
+  default_state_guard E c d = true ->
+  forall U (H : hooks U) (f : obj -> obj) i, inst_of (klass_of E n true) i ->
+  exists j, roundtrip H (klass_of E n true) f i = SOk j /\ inst_of (klass_of E n true) j
+            /\ forall a, stored j a = omap f (stored i a).
+Proof. exact roundtrip_default_S. Qed.
+
+(* user hooks (own or inherited from any base): the round trip is exactly the user's pair -- nothing of
+   slotted() stands in between -- so it restores whatever the pair restores *)
+Theorem C19_roundtrip_user_hooks : forall (E : cenv) fl (st st' : stack) c n d,
+  c19_guard c = true -> c_dc c = Some d -> wrap repaired fl st c = (st', Ok n) ->
+  forall U (H : hooks U) f i, user_state_guard E c = true ->
+  roundtrip H (klass_of E n true) f i = h_set H (blank_of (klass_of E n true)) (h_map H f (h_get H i)).
+Proof. exact roundtrip_user_S. Qed.
+Theorem C19_roundtrip_user_law : forall (E : cenv) fl (st st' : stack) c n d,
+  c19_guard c = true -> c_dc c = Some d -> wrap repaired fl st c = (st', Ok n) ->
+  forall U (H : hooks U) f i, user_state_guard E c = true -> hooks_restore H (klass_of E n true) f i ->
+  restores f i (roundtrip H (klass_of E n true) f i).
+Proof. exact st_roundtrip_user. Qed.
+
+(* a copy compares equal to its source when transported values compare equal to the originals *)
+Theorem C19_copy_equal : forall O K f i j names, lookup (kl_view K) k_eq = Some (CGen names) ->
+  (forall a, stored j a = omap f (stored i a)) -> (forall a, In a names -> stored i a <> None) ->
+  (forall v, v_eq O (f v) v = true) -> dc_eq O K j i = MBool true.
+Proof. exact st_copy_equal. Qed.
+
+(* end to end: S(args) succeeded; the instance goes through copy / deepcopy / pickle with a transport f
+   under which values stay equal; the result is an S-instance holding the transported values, and it
+   compares == to the source with the __eq__ dataclasses generated *)
+Theorem C19_construct_copy_equal : forall (E : cenv) fl (st st' : stack) c n d,
+  c19_guard c = true -> c_dc c = Some d -> wrap repaired fl st c = (st', Ok n) ->
+  forall D post pos kw O U (H : hooks U) f iS names,
+  construct_guard E fl c d post = true -> methods_guard E c d = true -> default_state_guard E c d = true ->
+  construct (klass_of E n true) d D post pos kw = SOk iS ->
+  lookup (view_of E c) k_eq = Some (CGen names) ->
+  (forall v, v_eq O (f v) v = true) ->
+  exists j, roundtrip H (klass_of E n true) f iS = SOk j /\ inst_of (klass_of E n true) j
+            /\ (forall a, stored j a = omap f (stored iS a))
+            /\ dc_eq O (klass_of E n true) j iS = MBool true.
+Proof. exact st_construct_copy_equal. Qed.
+
+(* chains: seen from a subclass of S, a field of c resolves to a slot descriptor iff it got a new slot
+   or resolved to one before: the bases clause of construct_guard is inherited along slotted chains *)
+Theorem C19_chain_members : forall (E : cenv) fl (st st' : stack) b nb d,
+  c19_guard b = true -> c_dc b = Some d -> wrap repaired fl st b = (st', Ok nb) ->
+  forall f, In f (fnames d) ->
+  is_member (view_of E nb) f = negb (mem f (inherited_slots (c_mro b))) || is_member (e_bases E) f.
+Proof. exact st_chain_members. Qed.
+
+(* ======================= instance-level witnesses ======================================== *)
+Definition fdunders : cdict :=
+  dunders ++ [("__setattr__", OId 11); ("__delattr__", OId 12); ("__hash__", OId 13)]%string.
+(* kinds of the objects above: b = 52 is a plain default; 8..13 are generated methods over fs *)
+Definition ex_kind (fs : list attr) (k : nat) : ukind :=
+  match k with 2 => UValue (OId 52) | 8 | 9 | 10 | 11 | 12 | 13 => UGen fs | _ => UValue (OId k) end.
+Definition ab : list attr := ["a"; "b"]%string.
+Definition slotted_base_view : dview := [("a", CMember); ("__weakref__", CGetSet); ("__init__", CGen ["a"])]%string.
+Definition hooked_base_view : dview := [("__getstate__", CFunc 100); ("__setstate__", CFunc 101)]%string.
+Definition E_child : cenv := {| e_kind := ex_kind ab; e_bases := [slotted_base_view] |}.
+Definition E_plain : cenv := {| e_kind := ex_kind ab; e_bases := [] |}.
+Definition E_hooked : cenv := {| e_kind := ex_kind ab; e_bases := [hooked_base_view] |}.
+Definition D0 : dcenv := {| dv_default := fun _ => OId 52; dv_factory := fun _ => OId 99 |}.
+Definition O0 : vops := {| v_eq := fun x y => match x, y with OId p, OId q => Nat.eqb p q | _, _ => false end;
+                           v_lt := fun x y => match x, y with OId p, OId q => Nat.ltb p q | _, _ => false end |}.
+Definition noflags := {| fl_dict := false; fl_weakref := false |}.
+Definition ex_frozen : cls := mkcls [] fdunders true [fld "a" NoDefault false; fld "b" Default false]%string [].
+Definition ex_plain : cls := mkcls [] dunders false [fld "a" NoDefault false; fld "b" Default false]%string [].
+Definition the (r : res cls) : cls := match r with Ok n => n | _ => not_a_dataclass end.
+Definition is_sok (r : sres) : bool := match r with SOk _ => true | _ => false end.
+Definition the_inst (r : sres) : inst := match r with SOk i => i | _ => ex_dict_only end.
+
+(* non-vacuity: a child of a slotted base (a in the base's slot, b new), dict=True; a frozen class;
+   a frozen class inheriting a user pair: the guards hold, construction / comparison / copy have the
+   expected concrete values on both classes *)
+Example C19_instance_hyps_satisfiable :
+  let n := the (snd (wrap repaired both [] ex_child)) in
+  let KC := klass_of E_child ex_child false in let KS := klass_of E_child n true in
+  construct_guard E_child both ex_child (match c_dc ex_child with Some d => d | None => {| d_frozen := false; d_eq := false; d_order := false; d_unsafe_hash := false; d_fields := [] |} end) [("_derived", OId 7)]%string = true
+  /\ methods_guard E_child ex_child (match c_dc ex_child with Some d => d | None => {| d_frozen := false; d_eq := false; d_order := false; d_unsafe_hash := false; d_fields := [] |} end) = true
+  /\ default_state_guard E_child ex_child (match c_dc ex_child with Some d => d | None => {| d_frozen := false; d_eq := false; d_order := false; d_unsafe_hash := false; d_fields := [] |} end) = true
+  /\ (exists d iC iS, c_dc ex_child = Some d
+        /\ construct KC d D0 [("_derived", OId 7)]%string [OId 1] [] = SOk iC
+        /\ construct KS d D0 [("_derived", OId 7)]%string [OId 1] [] = SOk iS
+        /\ i_slots iC = [("a", OId 1)]%string /\ i_dict iC = Some [("b", OId 52); ("_derived", OId 7)]%string
+        /\ i_slots iS = [("a", OId 1); ("b", OId 52)]%string /\ i_dict iS = Some [("_derived", OId 7)]%string
+        /\ dc_eq O0 KS iS iS = MBool true /\ dc_hash KS iS = HIdentity
+        /\ dc_repr KS iS = RGen "Outer.K" [("a", OId 1); ("b", OId 52)]%string
+        /\ getstate_default KS iS = SSeq [Some [("_derived", OId 7)]; Some [("b", OId 52); ("a", OId 1)]]%string
+        /\ roundtrip (field_hooks [] []) KS (fun v => v) iS
+           = SOk {| i_slotnames := i_slotnames iS; i_slots := [("b", OId 52); ("a", OId 1)]%string; i_dict := i_dict iS |}
+        /\ construct KS d D0 [] [] [] = SRaise SType /\ construct KC d D0 [] [] [] = SRaise SType).
+Proof.
+  cbv zeta. split; [vm_compute; reflexivity|]. split; [vm_compute; reflexivity|]. split; [vm_compute; reflexivity|].
+  eexists. eexists. eexists. vm_compute. repeat split.
+Qed.
+
+Example C19_frozen_roundtrip_example :
+  let n := the (snd (wrap repaired noflags [] ex_frozen)) in
+  let KS := klass_of E_plain n true in
+  exists d iS, c_dc ex_frozen = Some d /\ default_state_guard E_plain ex_frozen d = true
+    /\ assoc k_setstate (c_dict n) = Some OSetstateFix
+    /\ construct KS d D0 [] [] [("a", OId 3)]%string = SOk iS /\ i_dict iS = None
+    /\ getstate_default KS iS = SSeq [None; Some [("a", OId 3); ("b", OId 52)]%string]
+    /\ roundtrip (field_hooks [] []) KS (fun v => v) iS = SOk iS
+    /\ dc_hash KS iS = HTuple [OId 3; OId 52]
+    /\ py_setattr KS iS "a"%string (OId 9) = SRaise SFrozen.
+Proof. cbv zeta. eexists. eexists. vm_compute. repeat split. Qed.
+
+Example C19_user_hooks_example :
+  let n := the (snd (wrap repaired noflags [] ex_frozen_hooked)) in
+  let KS := klass_of E_hooked n true in
+  let H := field_hooks (kl_view KS) ab in
+  exists d iS, c_dc ex_frozen_hooked = Some d /\ user_state_guard E_hooked ex_frozen_hooked = true
+    /\ construct KS d D0 [] [OId 1; OId 2] [] = SOk iS
+    /\ h_get H iS = [("a", OId 1); ("b", OId 2)]%string
+    /\ roundtrip H KS (fun v => v) iS = SOk iS.
+Proof. cbv zeta. eexists. eexists. vm_compute. repeat split. Qed.
+
+(* ---- each guard is needed ---------------------------------------------------------------- *)
+(* construct_guard, bases clause: a base (B, __slots__ = ()) shadows the slot `a` of its own base with
+   a class attribute; the plain dataclass stores a in its __dict__, the slotted one cannot store it *)
+Definition shadow_mro : list csum :=
+  [ {| s_slots := Some []; s_getstate := false; s_setstate := false |};
+    {| s_slots := Some ["a"]%string; s_getstate := false; s_setstate := false |} ].
+Definition E_shadow : cenv :=
+  {| e_kind := ex_kind ab; e_bases := [[("a", CValue (OId 5))]; [("a", CMember)]]%string |}.
+Definition ex_shadowed : cls := mkcls shadow_mro dunders false [fld "a" NoDefault true; fld "b" Default false]%string [].
+Theorem C19_refuted_shadowed_base_slot : exists E fl c n d D pos,
+  c19_guard c = true /\ c_dc c = Some d /\ wrap repaired fl [] c = ([], Ok n)
+  /\ construct_guard E fl c d [] = false
+  /\ is_sok (construct (klass_of E c false) d D [] pos []) = true
+  /\ construct (klass_of E n true) d D [] pos [] = SRaise SAttribute.
+Proof. exists E_shadow, noflags, ex_shadowed. eexists. eexists. exists D0, [OId 1]. vm_compute. repeat split. Qed.
+
+(* construct_guard, __post_init__ clause: state that is not a field needs an instance __dict__ --
+   which is what "no per-instance __dict__ unless requested" means *)
+Theorem C19_refuted_post_init_needs_dict : exists E fl c n d D pos post,
+  c19_guard c = true /\ c_dc c = Some d /\ wrap repaired fl [] c = ([], Ok n)
+  /\ construct_guard E fl c d post = false /\ construct_guard E fl c d [] = true
+  /\ is_sok (construct (klass_of E c false) d D post pos []) = true
+  /\ construct (klass_of E n true) d D post pos [] = SRaise SAttribute.
+Proof.
+  exists E_plain, noflags, ex_plain. eexists. eexists. exists D0, [OId 1], [("_derived", OId 7)]%string.
+  vm_compute. repeat split.
+Qed.
+
+(* why every field name must leave the class dict, also one whose slot is inherited (seeded C19-r3m2):
+   put the default of `a` back into the slotted child of a slotted base and the descriptor of the
+   base is shadowed: construction raises AttributeError *)
+Definition ex_redeclared : cls :=
+  mkcls [slotted_base] (dunders ++ [("a", OId 14)]%string) false [fld "a" Default true; fld "b" Default false]%string [].
+Definition with_entry (n : cls) (a : attr) (o : obj) : cls :=
+  {| c_name := c_name n; c_qualname := c_qualname n; c_module := c_module n; c_plain_meta := c_plain_meta n;
+     c_mro := c_mro n; c_dict := (a, o) :: c_dict n; c_dc := c_dc n; c_cells := c_cells n; c_stale := c_stale n |}.
+Theorem C19_refuted_leftover_default : exists E fl c n d D,
+  c19_guard c = true /\ c_dc c = Some d /\ wrap repaired fl [] c = ([], Ok n)
+  /\ construct_guard E fl c d [] = true
+  /\ assoc "a"%string (c_dict n) = None
+  /\ is_sok (construct (klass_of E n true) d D [] [] []) = true
+  /\ construct (klass_of E (with_entry n "a"%string (OId 14)) true) d D [] [] [] = SRaise SAttribute.
+Proof. exists E_child, noflags, ex_redeclared. eexists. eexists. exists D0. vm_compute. repeat split. Qed.
+
+(* user_state_guard (the hooks come as a pair): a frozen class with a lone user __getstate__ that
+   returns a dict: the plain class restores it into __dict__, the slotted one has neither a __dict__
+   nor a __setstate__ (the fix is not installed over a user hook) *)
+Definition lone_get_dict : cdict := fdunders ++ [("__getstate__", OId 14)]%string.
+Definition ex_lone_get : cls := mkcls [] lone_get_dict true [fld "a" NoDefault false; fld "b" Default false]%string [].
+Definition E_lone : cenv :=
+  {| e_kind := fun k => match k with 14 => UFunc | _ => ex_kind ab k end; e_bases := [] |}.
+Theorem C19_refuted_lone_getstate : exists E fl c n d D pos,
+  c19_guard c = true /\ c_dc c = Some d /\ wrap repaired fl [] c = ([], Ok n)
+  /\ user_state_guard E c = false /\ default_state_guard E c d = false
+  /\ (let KC := klass_of E c false in let KS := klass_of E n true in
+      let iC := the_inst (construct KC d D [] pos []) in let iS := the_inst (construct KS d D [] pos []) in
+      is_sok (construct KC d D [] pos []) = true /\ is_sok (construct KS d D [] pos []) = true
+      /\ roundtrip (dict_hooks (kl_view KC) ab) KC (fun v => v) iC = SOk iC
+      /\ roundtrip (dict_hooks (kl_view KS) ab) KS (fun v => v) iS = SRaise SAttribute).
+Proof. exists E_lone, noflags, ex_lone_get. eexists. eexists. exists D0, [OId 1]. vm_compute. repeat split. Qed.
+
+(* the pinned defect of C19_refuted_inherited_hooks at instance level (seeded C19-r3m1): with
+   _slots_setstate installed over an inherited user pair whose state is keyed by the user's own names,
+   copying raises AttributeError although the pair itself restores the instance (the repaired model: SOk i) *)
+Definition upper_hooks : hooks store :=
+  {| h_get := fun i => match stored i "a"%string with Some v => [("A"%string, v)] | None => [] end;
+     h_set := fun b u => match assoc "A"%string u with Some v => obj_setattr b "a"%string v | None => SOk b end;
+     h_map := map_store; h_plain := fun u => Some (SSeq [None; Some u]) |}.
+Definition hooked_slotted_base : csum := {| s_slots := Some []; s_getstate := true; s_setstate := true |}.
+Definition ex_hooked_a : cls := mkcls [hooked_slotted_base] fdunders true [fld "a" NoDefault false]%string [].
+Definition E_hooked_a : cenv := {| e_kind := ex_kind ["a"%string]; e_bases := [hooked_base_view] |}.
+Theorem C19_refuted_fix_over_user_hooks : exists E fl c d D pos,
+  c19_guard c = true /\ c_dc c = Some d /\ user_state_guard E c = true
+  /\ (let nP := the (snd (wrap pinned fl [] c)) in let nR := the (snd (wrap repaired fl [] c)) in
+      let KP := klass_of E nP true in let KR := klass_of E nR true in
+      let i := the_inst (construct KR d D [] pos []) in
+      is_sok (construct KR d D [] pos []) = true /\ construct KP d D [] pos [] = construct KR d D [] pos []
+      /\ roundtrip upper_hooks KR (fun v => v) i = SOk i
+      /\ roundtrip upper_hooks KP (fun v => v) i = SRaise SAttribute).
+Proof.
+  exists E_hooked_a, noflags, ex_hooked_a. eexists. exists D0, [OId 1]. cbv zeta.
+  split; [reflexivity|]. split; [reflexivity|]. split; [vm_compute; reflexivity|].
+  split; [vm_compute; reflexivity|]. split; [vm_compute; reflexivity|]. split; vm_compute; reflexivity.
+Qed.
+
+(* default_state_guard, plain_bases clause: a class variable of the dataclass shadows a slot of a
+   (non-dataclass) base: object.__getstate__ reads the class variable into the slot state, and the
+   slotted class, without a __dict__, cannot store it back; the plain class can *)
+Definition cv_base : csum := {| s_slots := Some ["cv"]%string; s_getstate := false; s_setstate := false |}.
+Definition E_cv : cenv := {| e_kind := fun k => match k with 14 => UValue (OId 7) | _ => ex_kind ab k end;
+                             e_bases := [[("cv", CMember)]]%string |}.
+Definition ex_cv : cls := mkcls [cv_base] (dunders ++ [("cv", OId 14)]%string) false [fld "a" NoDefault false; fld "b" Default false]%string [].
+Theorem C19_refuted_shadowing_classvar : exists E fl c n d D pos,
+  c19_guard c = true /\ c_dc c = Some d /\ wrap repaired fl [] c = ([], Ok n)
+  /\ default_state_guard E c d = false /\ construct_guard E fl c d [] = true
+  /\ (let KC := klass_of E c false in let KS := klass_of E n true in
+      let iC := the_inst (construct KC d D [] pos []) in let iS := the_inst (construct KS d D [] pos []) in
+      is_sok (construct KC d D [] pos []) = true /\ is_sok (construct KS d D [] pos []) = true
+      /\ is_sok (roundtrip (field_hooks [] []) KC (fun v => v) iC) = true
+      /\ roundtrip (field_hooks [] []) KS (fun v => v) iS = SRaise SAttribute).
+Proof. exists E_cv, noflags, ex_cv. eexists. eexists. exists D0, [OId 1]. vm_compute. repeat split. Qed.
+
+(* frozen-ness beyond the fields (same root as KF-C19-zero-arg-super: the generated __setattr__ is
+   carried over and its `cls` is the original class): assigning a name that is not a field raises
+   FrozenInstanceError on the dataclass and TypeError on the slotted class *)
+Theorem C19_refuted_frozen_nonfield_setattr : exists E fl c n d D pos,
+  c19_guard c = true /\ c_dc c = Some d /\ wrap repaired fl [] c = ([], Ok n) /\ methods_guard E c d = true
+  /\ (let KC := klass_of E c false in let KS := klass_of E n true in
+      let iC := the_inst (construct KC d D [] pos []) in let iS := the_inst (construct KS d D [] pos []) in
+      py_setattr KC iC "zzz"%string (OId 1) = SRaise SFrozen /\ py_setattr KS iS "zzz"%string (OId 1) = SRaise SType).
+Proof. exists E_plain, noflags, ex_frozen. eexists. eexists. exists D0, [OId 1]. vm_compute. repeat split. Qed.
+
+(* the law of the user's pair is needed: a pair that restores something else copies to something else *)
+Definition lossy_hooks : hooks store :=
+  {| h_get := fun _ => []; h_set := fun b _ => SOk b; h_map := map_store; h_plain := fun _ => None |}.
+Theorem C19_refuted_lawless_hooks : exists E fl c d D pos,
+  c19_guard c = true /\ c_dc c = Some d /\ user_state_guard E c = true
+  /\ (let n := the (snd (wrap repaired fl [] c)) in let K := klass_of E n true in
+      let i := the_inst (construct K d D [] pos []) in
+      is_sok (construct K d D [] pos []) = true
+      /\ exists j, roundtrip lossy_hooks K (fun v => v) i = SOk j /\ stored j "a"%string = None /\ stored i "a"%string = Some (OId 1)).
+Proof.
+  exists E_hooked_a, noflags, ex_hooked_a. eexists. exists D0, [OId 1]. cbv zeta.
+  split; [reflexivity|]. split; [reflexivity|]. split; [vm_compute; reflexivity|]. split; [vm_compute; reflexivity|].
+  eexists. vm_compute. repeat split.
+Qed.
+
 Print Assumptions C19_never_raises.
 Print Assumptions C19_stack_empty_after_success.
 Print Assumptions C19_stack_restored.
@@ -282,3 +588,21 @@ Print Assumptions C19_full_is_false.
 Print Assumptions C19_refuted_weakref_base.
 Print Assumptions C19_refuted_stack_leak.
 Print Assumptions C19_refuted_inherited_hooks.
+Print Assumptions C19_construct.
+Print Assumptions C19_instance_dict.
+Print Assumptions C19_methods.
+Print Assumptions C19_frozen_fields.
+Print Assumptions C19_roundtrip.
+Print Assumptions C19_roundtrip_user_hooks.
+Print Assumptions C19_roundtrip_user_law.
+Print Assumptions C19_copy_equal.
+Print Assumptions C19_construct_copy_equal.
+Print Assumptions C19_chain_members.
+Print Assumptions C19_refuted_shadowed_base_slot.
+Print Assumptions C19_refuted_post_init_needs_dict.
+Print Assumptions C19_refuted_leftover_default.
+Print Assumptions C19_refuted_lone_getstate.
+Print Assumptions C19_refuted_fix_over_user_hooks.
+Print Assumptions C19_refuted_shadowing_classvar.
+Print Assumptions C19_refuted_frozen_nonfield_setattr.
+Print Assumptions C19_refuted_lawless_hooks.
